@@ -27,6 +27,14 @@ of the historical streams and every replay file naming one of their indices is u
               elements whose fields have defaults are cut off, defaulted dataclass keys and not-required TypedDict keys are dropped —
               and then possibly gets junk at one position.  What the library fills in for the caller must go into the *result*: a
               conforming instance (or an exception), the caller's dict and every list inside it exactly as they were.
+  LIT_BASE    `Literal` positions, mostly on the v1 engine: member lists drawn from *families of equal values under different
+              types* (False / 0 / 0.0, True / 1 / 1.0, 2 / 2.0, ..., 10**20 / 1e20) next to fractions, strings and None, so most lists
+              mix member types and some hold two members that are == to each other; one or two Literal types per class (two fields,
+              or both inside one tuple) × positions (field, Optional, list / set / variadic tuple element among members, fixed
+              tuple, dict value, nested dataclass, list of nested) × inputs: a member exactly, a value == to a member that carries
+              the type of *another* member, a value == to a member under a type no member has, a non-member of a member's type,
+              junk (unhashable values, nan, numeric strings) × fromdict / Cls.from_dict / Cls.from_json (the JSON text decides
+              between `1` and `1.0`).  A Literal position of the result holds a member by value *and* type, or the call raises.
   -O          a sample of the cases of *every* stream (historical junk / near-miss streams included; all of the v1 and TypedDict
               cases, about a third of the others) is loaded again in a child interpreter started with `-O` (assert statements
               compiled away, __debug__ False): harness/optchild.py rebuilds the classes from the class model and applies the
@@ -55,7 +63,11 @@ RULE = ('Enum families (plain, str / int mix-in, IntEnum, StrEnum) × 10 positio
         'fromlist / from_list / from_json with documents of that class or of a relative, one position possibly junk: an instance of '
         'exactly the class asked for, conforming in every own and inherited field, or an exception; documents leaning on declared '
         'defaults (trailing defaulted NamedTuple elements cut off at any depth, defaulted dataclass keys and not-required TypedDict keys '
-        'dropped, then possibly junk at one position) on both engines: conforming instance or exception, input untouched; a sample of '
+        'dropped, then possibly junk at one position) on both engines: conforming instance or exception, input untouched; Literal '
+        'positions (v1 engine mostly) whose member lists mix types within families of equal values (False / 0 / 0.0, True / 1 / 1.0, '
+        '2 / 2.0, 10**20 / 1e20, ...), one or two Literal types per class, × 11 positions × inputs that are a member, == to a member '
+        'under the type of another member, == to a member under a foreign type, a non-member of a member type, junk × fromdict / '
+        'from_dict / from_json: a member by value and type at every Literal position, or an exception; a sample of '
         'the cases of every stream loaded again under `python -O` with the same oracle applied in the child; conforms() is exact-type for '
         'every leaf.')
 
@@ -66,12 +78,13 @@ V1_BASE = 5_000_000
 TD_BASE = 6_000_000
 INH_BASE = 7_000_000
 DFL_BASE = 8_000_000
+LIT_BASE = 9_000_000
 
 RUN_TAG = ''
 
 # cases to be loaded again under `python -O`: [index, kind, case, ty, document]
 OPT_CASES = []
-OPT_RATE = {'junk:v1': 1.0, 'typeddict': 1.0}
+OPT_RATE = {'junk:v1': 1.0, 'typeddict': 1.0, 'literal': 0.5}
 OPT_RATE_DEFAULT = 0.35
 
 
@@ -656,6 +669,217 @@ def run_inherit(ctx, c05, reqs, pend):
             built.close()
 
 
+# --------------------------------------------------------------------------- Literal positions: member lists that mix types
+
+# families of values that are == (and hash alike) under different JSON types
+LIT_FAMILIES = [[False, 0, 0.0], [True, 1, 1.0], [2, 2.0], [3, 3.0], [4, 4.0], [-1, -1.0], [7, 7.0], [12, 12.0], [10 ** 20, 1e20],
+                [0.5], [0.25], [2.5], [-7.5]]
+LIT_TEXT = ['auto', 'on', '', '1', 'True', 'x y', '0.5', 'inherit']
+LIT_JUNK = [[], {}, [1], [True], {'a': 1}, None, float('nan'), float('inf'), -0.0, '1', '1.0', 'True', 'AUTO', ' ', 10 ** 30, -2, 0.1]
+LIT_APIS = ['fromdict', 'fromdict', 'from_dict', 'from_dict', 'from_json']
+
+
+def typed_eq(v, w):
+    return type(v) is type(w) and v == w
+
+
+def lit_members(rng):
+    """a member list as `typing.Literal` keeps it (duplicates by value *and* type dropped)"""
+    r = rng.random()
+    nums = [v for fam in LIT_FAMILIES for v in fam]
+    if r < 0.55:
+        pool = nums
+    elif r < 0.9:
+        pool = nums + LIT_TEXT + [None]
+    else:
+        one = rng.choice([bool, int, float, str])          # the control: one member type only
+        pool = [v for v in nums + LIT_TEXT if type(v) is one]
+    vs = []
+    for v in rng.sample(pool, min(len(pool), rng.randint(1, 5))):
+        if not any(typed_eq(v, w) for w in vs):
+            vs.append(v)
+    if r < 0.9 and rng.random() < 0.35:
+        # two members that are == to each other under different types
+        fam = rng.choice([f for f in LIT_FAMILIES if len(f) > 1])
+        for v in rng.sample(fam, 2):
+            if not any(typed_eq(v, w) for w in vs):
+                vs.insert(rng.randint(0, len(vs)), v)
+    return vs
+
+
+def lit_twins(v):
+    """the values == to `v` under the other JSON types"""
+    if isinstance(v, (bool, int, float)) and v == v and abs(v) != float('inf'):
+        out = []
+        if v in (0, 1):
+            out.append(bool(v))
+        if v == int(v):
+            out.append(int(v))
+        out.append(float(v))
+        return [w for w in out if type(w) is not type(v) and w == v]
+    return []
+
+
+def lit_input(rng, vs):
+    """-> (kind of input, value)"""
+    is_member = lambda w: any(typed_eq(w, m) for m in vs)
+    twins = [w for m in vs for w in lit_twins(m) if not is_member(w)]
+    typed = [w for w in twins if any(type(w) is type(m) for m in vs)]
+    kind = rng.choice(['member', 'twin-typed', 'twin-typed', 'twin-typed', 'twin', 'twin', 'non-member', 'junk'])
+    if kind == 'twin-typed' and not typed:
+        kind = 'twin'
+    if kind == 'twin' and not twins:
+        kind = 'non-member'
+    if kind == 'member':
+        return kind, rng.choice(vs)
+    if kind == 'twin-typed':
+        return kind, rng.choice(typed)
+    if kind == 'twin':
+        return kind, rng.choice(twins)
+    if kind == 'non-member':
+        cands = [w for fam in LIT_FAMILIES for w in fam if any(type(w) is type(m) for m in vs) and not any(w == m for m in vs)]
+        cands += [w for w in LIT_TEXT if any(type(m) is str for m in vs) and w not in vs]
+        if cands:
+            return kind, rng.choice(cands)
+        kind = 'junk'
+    return kind, copy.deepcopy(rng.choice(LIT_JUNK) if rng.random() < 0.7 else gen.junk(rng))
+
+
+def lit_twin_members(vs):
+    return any(a == b and type(a) is not type(b) for a in vs for b in vs)
+
+
+def lit_collide(vs, ws):
+    """the recorded shape `v1-literal-helper-shared-by-equal-args` (findings/v1-literal-helper-shared-by-equal-args.py): two
+    Literal types of one class whose member tuples are == position by position without being the same members"""
+    return len(vs) == len(ws) and all(a == b for a, b in zip(vs, ws)) and not all(typed_eq(a, b) for a, b in zip(vs, ws))
+
+
+LIT_POS = ['field', 'field', 'optional', 'list', 'set', 'vtuple', 'tuple', 'tuple2', 'dictval', 'nested', 'list-nested', 'two-fields']
+
+
+def run_literal(ctx, c05, reqs, pend):
+    import dataclass_wizard as dw
+    rng = sub_rng(ctx, 'literal')
+    n = ctx.quick(600, 9000)
+    for j in range(n):
+        i = LIT_BASE + j
+        if ctx.done(i):
+            break
+        engine = rng.choice(['v1', 'v1', 'v1', 'default'])
+        vs = lit_members(rng)
+        lt = T('literal', vs=vs)
+        pos = rng.choice(LIT_POS)
+        kind, v = lit_input(rng, vs)
+        others = [copy.deepcopy(rng.choice(vs)) for _ in range(rng.randint(0, 2))]
+        at = rng.randint(0, len(others))
+        row = others[:at] + [v] + others[at:]
+        other_field = None
+        all_members = [vs]
+        if pos in ('tuple2', 'two-fields'):
+            ws = lit_members(rng)
+            while lit_collide(vs, ws):          # kept out of the stream: recorded, observed by its directed reproduction
+                ws = lit_members(rng)
+            lt2 = T('literal', vs=ws)
+            all_members.append(ws)
+            kind2, w = lit_input(rng, ws)
+            if rng.random() < 0.5:
+                kind2, w = 'member', rng.choice(ws)
+            kind = kind + '+' + kind2
+        inner = lambda: {'k': 'cls', 'info': {'name': model.fresh('N'), 'fields': [{'name': 'inner_val'}], 'wizard': False, 'meta': None},
+                         'ftys': [['inner_val', lt]]}
+        if pos == 'field':
+            ft, doc = lt, v
+        elif pos == 'optional':
+            ft, doc = T('optional', lt), v
+        elif pos in ('list', 'set', 'vtuple'):
+            ft, doc = T(pos, lt), row
+        elif pos == 'tuple':
+            ft, doc = T('tuple', T('str'), lt), ['s', v]
+        elif pos == 'tuple2':
+            ft, doc = T('tuple', lt, lt2), [v, w]
+        elif pos == 'dictval':
+            ft, doc = T('dict', T('str'), lt), {f'k{q}': e for q, e in enumerate(row)}
+        elif pos == 'nested':
+            ft, doc = inner(), {'inner_val': v}
+        elif pos == 'list-nested':
+            ft, doc = T('list', inner()), [{'inner_val': e} for e in row]
+        else:
+            ft, doc, other_field = lt, v, (lt2, w)
+        wizard = engine == 'v1' or rng.random() < 0.5
+        ty = one_field(ft, meta={'v1': True} if engine == 'v1' else None, wizard=wizard)
+        bad = {'fld': doc}
+        if other_field:
+            ty['info']['fields'].append({'name': 'other'})
+            ty['ftys'].append(['other', other_field[0]])
+            bad['other'] = other_field[1]
+        bad = copy.deepcopy(bad)
+        api = rng.choice(LIT_APIS)
+        if not wizard:
+            api = 'fromdict'
+        if api == 'from_json':
+            try:
+                text = json.dumps(bad)
+                if not c05.strict_eq(json.loads(text), bad):
+                    api = 'from_dict'
+            except (TypeError, ValueError):
+                api = 'from_dict'
+        if not ctx.begin_case(i):
+            continue
+        built = model.Built(ty)
+        try:
+            types = {type(m).__name__ for m in vs}
+            case = {'engine': engine, 'ty': ty, 'doc': repr(bad), 'api': api, 'position': pos, 'input': kind, 'members': repr(vs)}
+            ctx.seen('literal:' + engine, case)
+            ctx.count('literal:input:' + kind.split('+')[0])
+            ctx.count('literal:member-types:' + ('mixed' if len(types) > 1 else 'one'))
+            Cls = built.root
+            before = copy.deepcopy(bad)
+            collect(ctx, 'literal', case, ty, before)
+            if api == 'fromdict':
+                out = load_outcome(lambda: dw.fromdict(Cls, bad))
+            elif api == 'from_dict':
+                out = load_outcome(lambda: Cls.from_dict(bad))
+            else:
+                out = load_outcome(lambda: Cls.from_json(text))
+            src = dict(src=built.source)
+            if not c05.strict_eq(bad, before):
+                ctx.fail('junk:input-mutated', case, f'{api} changed its input: before {before!r}, after {bad!r}'[:1500], detail=src)
+            if out[0] == 'ok':
+                ctx.count('returned')
+                ctx.count('literal:returned:' + kind.split('+')[0])
+                try:
+                    okc = c05.conforms(out[1], ty, built)
+                except Exception:
+                    okc = False
+                if not okc:
+                    ctx.fail('literal:nonconforming', case, f'{engine} engine, {api}({bad!r}) returned {out[1]!r}: a Literal position '
+                             f'holds a value that is no member by value and type (members {vs!r}; input kind {kind})'[:1500],
+                             key=c05._known(out[1], ty, built), detail=src)
+            else:
+                ctx.count('raised:' + type(out[1]).__name__)
+                if kind == 'member' and pos != 'set':
+                    # a member itself is a value of the annotation: rejecting it is not what C05 speaks about, but it tells that the
+                    # stream (or the library) is off: count it, visible in the evidence
+                    ctx.count('literal:member-rejected')
+            jv = json.dumps(bad, default=repr)
+            if engine == 'default' and any(lit_twin_members(m) for m in all_members):
+                # LiteralParser keeps {member: type(member)}: of two members that are == the *later* one's type is demanded and the
+                # earlier member itself is rejected (an exception: nothing C05 forbids); DW.Model.Load.asLiteral describes member
+                # lists without such pairs (the lists of the C01 grammar), so only the oracle above speaks here
+                ctx.count('literal:model-skipped:default-engine-equal-members')
+            elif 'NaN' not in jv and 'Infinity' not in jv:
+                st = model.StdTables()
+                st.add_json(bad)
+                try:
+                    reqs.append({'op': 'load' if engine == 'default' else 'loadv1', 'ty': model.enc_ty(ty), 'doc': model.enc_j(bad), 'std': st.build()})
+                    pend.append(('literal', case, out, built, engine))
+                except TypeError:
+                    ctx.count('not_encodable')
+        finally:
+            built.close()
+
+
 # --------------------------------------------------------------------------- the same cases under `python -O`
 
 def run_optimized(ctx, c05, flags=('-O',), min_optimize=1):
@@ -710,6 +934,7 @@ def run(ctx, c05):
     run_typeddict(ctx, c05, reqs, pend)
     run_inherit(ctx, c05, reqs, pend)
     run_defaults(ctx, c05, reqs, pend)
+    run_literal(ctx, c05, reqs, pend)
     run_optimized(ctx, c05)
     if ctx.model_available:
         outs = ctx.driver.run(reqs)
